@@ -8,6 +8,12 @@ the property text evaluated on the loaded frames against the generator's own tab
 independent numpy reference (no use of the model): counts, order, timestamps, per-object fields, pose
 identities (also through the real transform objects stored with the frame), tracked history.
 
+Besides the 3-D tasks the same directories (plus `object_ann.json` / `surface_ann.json`) are loaded for the 2-D
+tasks (detection2d / tracking2d / classification2d / fp_validation2d, label families autoware and traffic_light, any
+list of camera frame ids) and compared with `PEval.Dataset.loadDataset2D`; velocities (`_get_box_velocity`, the
+devkit's `box_velocity` for the tracked states) are compared within 1e-9, the model being handed the exact value
+of the float `1e-6 * timestamp` of every sample.
+
 A case is a plain JSON value: the tables in an abstract spelling (rationals as "p/q" strings, rotations as
 four rationals a/n, b/n, c/n, d/n with a^2+b^2+c^2+d^2 = n^2) plus the list of configurations to load.
 `write_dataset` is a pure function of the case, so a replay reproduces the directory exactly.
@@ -37,29 +43,68 @@ THEOREMS = [
         "other_frame_rejected",
         "tracking_history", "tracking_history_same_instance", "tracking_history_bounds",
         "tracking_history_preceding", "no_history_unless_tracking",
+        "tracking_history_exact", "prev_chain_exists_sorted", "tracking_history_exact_frame",
+        "objects_velocity", "velocity_none_single", "velocity_formula", "velocity_exact_time", "velocity_total",
+        "fp_validation_all_fp", "fp_validation_rejects", "sensor_channels_are_frame_ids",
+        "traffic_light_rotations_must_not_cancel",
         "load_total",
+        "label2d_total", "frames2d_length_order_time", "cameras_selected", "ego2map_2d",
+        "objects2d_per_annotation", "roi_truncates_toward_zero", "traffic_light_uuid",
+        "merged_traffic_lights", "load2d_total",
     ]
 ]
 RULE = (
     "seeded random well-formed dataset directories: 1..8 samples (strictly increasing timestamps, steps from 50 ms to "
-    "4 s incl. exactly 3.15 s), 0..6 instances each present in a random subset of the samples (appearing, disappearing, "
+    "4 s incl. exactly 3.15 s; 40% of the datasets on a 1/64 s grid where float seconds are exact, incl. gaps of exactly "
+    "1.5 s and 3 s for the velocity bounds), 0..6 instances each present in a random subset of the samples (appearing, disappearing, "
     "re-appearing), annotation table shuffled, categories inside the label table (incl. upper/mixed case, merge-sensitive "
     "ones) and outside it, 0..2 attributes, all visibility levels/aliases/unknown levels with token != level and the "
     "empty visibility table, 1..4 sensors incl. LIDAR_TOP and/or LIDAR_CONCAT (chosen lidar calibrated at the ego "
     "origin, the others anywhere), extra non-key-frame sample_data, rational unit quaternions (squares of integer "
-    "quaternions, yaw-only and full 3-D, both signs), dyadic translations/sizes; each dataset is loaded for the 12 "
-    "configurations task x frame x merge; a case is trivial when the dataset has no annotation; distinct = distinct tables"
+    "quaternions, yaw-only and full 3-D, both signs; the picked lidar's ego pose is fully 3-D in half of the samples), "
+    "dyadic translations/sizes; 0..8 2-D annotations (object_ann) on camera key frames, sweeps and lidar records, bbox "
+    "ints/floats/negative/inverted, instances with regulatory-element names sharing ids; each dataset is loaded for the "
+    "12 configurations task x frame x merge, 2 fp_validation configurations and 4 random 2-D configurations (task x "
+    "label family x merge x list of frame ids incl. absent cameras, non-camera ids and the empty list); CONTRACT "
+    "families (one deviation from the well-formed shape each, correspondence only): several key-frame records per "
+    "channel, a duplicated token in a lookup table, two annotations of one instance in one sample, the picked lidar "
+    "off the ego origin, a sensor channel outside FrameID, a dangling 2-D instance token, all-false_positive categories; "
+    "a case is trivial when the dataset has no annotation; distinct = distinct tables"
 )
 TRUSTED = [
-    "nuscenes-devkit 1.2.0 (NuScenes.__init__/get/get_boxes/get_sample_data, Box.translate/rotate, "
-    "PredictHelper.get_past_for_agent) is an EXTERNAL CONTRACT: the model's table semantics (token lookup, "
-    "sample['anns'] = annotation-table order, sample['data'][channel] = last key-frame sample_data, boxes moved by "
-    "the inverse ego pose then the inverse sensor pose, prev-chain walk with 3.15 s window and cap 6) is checked "
-    "against it on every generated dataset, not verified",
+    "nuscenes-devkit 1.2.0 / nuimages is an EXTERNAL CONTRACT: each fact below is assumed by the model, checked "
+    "against the real devkit on every run by the named case family, not verified",
+    "devkit fact GET: nusc.get(table, token) / nuim.get = the LAST record of the table carrying the token (index built "
+    "by assignment in table order), KeyError if none [families: shuffled tables on every case; contract:dup-token "
+    "duplicates a token of category/attribute/visibility/instance/sensor/calibrated_sensor/ego_pose with another payload]",
+    "devkit fact ANNS: sample['anns'] (hence get_boxes and the object order of a frame) = the sample's annotations in "
+    "sample_annotation TABLE order [family: annotation table shuffled on 70% of the cases, objects compared in order; "
+    "branch contract:anns-order = a sample whose table order differs from the instance order]",
+    "devkit fact DATA: sample['data'][channel] = the LAST key-frame sample_data of the sample whose calibrated sensor's "
+    "sensor has the channel; non-key-frame records never appear [families: sweeps before/after the key frame on every "
+    "case; contract:multi-keyframe = two or three key-frame records of the picked lidar with different ego poses]",
+    "devkit fact CATEGORY: annotation['category_name'] = name of the category of the annotation's instance "
+    "[every case; instance table shuffled]",
+    "devkit fact BOXES: get_boxes (key frame) = annotated translation/size/rotation; get_sample_data = those moved by "
+    "the inverse ego pose of the record, then by the inverse pose of its calibrated sensor, no filtering for lidar "
+    "[every base_link config; contract:lidar-offset puts the picked lidar off the ego origin]",
+    "devkit fact START: PredictHelper.get_sample_annotation(instance, sample) = the LAST annotation of that sample and "
+    "instance [contract:dup-instance = two annotations of one instance in one sample, tracking configs]",
+    "devkit fact ITERATE: PredictHelper._iterate(prev, 3.0 s) keeps records whose |dt| < 3.15 s, goes on while the "
+    "last |dt| <= 3.15 s and fewer than 6 are held [corpus long tracks with 0.4 s / 1 s / 1.05 s steps; steps of "
+    "exactly 3 150 000 and 3 150 001 us; branches history:capped / window-cut / window-exact]",
+    "devkit fact VELOCITY: NuScenes.box_velocity = (next.translation - prev.translation) / (t_next - t_prev) in float "
+    "seconds (the annotation itself where a side is missing), nan when both are missing or dt > 1.5 s (3 s centred) "
+    "[every tracking config; grid datasets with gaps of exactly 1.5 s and 3 s; branches tvel:*]",
+    "devkit fact NUIM: NuImages reads the same sample/category/attribute JSON tables and object_ann.json lazily; "
+    "nuim.object_ann is in file order [every 2-D config; object_ann shuffled]",
+    "the float `1e-6 * timestamp` (sample time in seconds) is computed by the harness with the same IEEE product and "
+    "handed to the model exactly",
     "pyquaternion (Quaternion(list), inverse, rotation_matrix, product) modelled by rational quaternion algebra; "
     "orientations compared as rotation matrices within 1e-9",
     "translator harness/gen_tables.py (label pair tables, Visibility members and aliases)",
-    "the dataset writer write_dataset (abstract tables -> the devkit's JSON files) and the boilerplate tables log/map/scene",
+    "the dataset writer write_dataset (abstract tables -> the devkit's JSON files) and the boilerplate tables log/map/scene/surface_ann",
+    "python set iteration order (merged traffic lights) is unspecified: merged objects are compared as a set keyed by uuid",
 ]
 ASSUMPTIONS = [
     "well-formed datasets only: tokens unique per table, every referenced token resolves, annotation prev/next link the "
@@ -72,13 +117,35 @@ ASSUMPTIONS = [
     "Box.translate raise a numpy casting error - devkit behaviour, outside the property)",
     "tracked history is compared as the loader exposes it: annotated GLOBAL poses of the preceding annotations of the "
     "instance, also when the objects themselves are requested in base_link",
-    "velocities (current and tracked) are not part of the property and are not compared",
+    "velocities (current: _get_box_velocity, tracked: box_velocity) are not part of the property text: they are "
+    "compared model-vs-code (1e-9) but not judged by the oracle; prev/next neighbours lie in other samples (dt != 0)",
+    "fp_validation and the 2-D tasks are outside the property's quantifier (detection/tracking/sensing): fp_validation is "
+    "compared model-vs-code only; for 2-D the oracle reads the statement on the 2-D annotations of the requested "
+    "cameras (one frame per sample with its timestamp; one object per object_ann carrying instance id / regulatory "
+    "element id, converted label, attributes, camera frame id, truncated ROI) and leaves merged traffic lights to the "
+    "correspondence",
+    "every sensor channel is a FrameID value (else _get_transforms raises ValueError; contract family bad-channel); "
+    "contract families are ill-formed or outside the property's domain and are not judged by the oracle",
     "category/attribute names are ASCII",
+    "known finding C16-N1 (traffic-light camera rotations that cancel make every load raise ZeroDivisionError) is "
+    "modelled as it behaves, so the correspondence agrees; the oracle failure is matched by known_finding() and "
+    "printed as KNOWN-FINDING; with three or more traffic-light calibrated sensors the model decides the cancellation "
+    "in exact rationals, the code in floats (the generator produces at most two such channels)",
 ]
 
 TASKS = ["detection", "tracking", "sensing"]
 FRAMES = ["base_link", "map"]
 ALL_CONFIGS = [[t, f, m] for t in TASKS for f in FRAMES for m in (False, True)]
+FP_CONFIGS = [["fp_validation", f, m] for f in FRAMES for m in (False, True)]
+TASKS_2D = ["detection2d", "tracking2d", "classification2d", "fp_validation2d"]
+FAMILIES = ["autoware", "traffic_light"]
+TLR_CATS = ["green", "red", "RED_LEFT", "yellow_straight", "unknown", "crosswalk_red", "crosswalk_unknown", "traffic_light",
+            "red_rightdiagonal", "false_positive", "Green", "blue", "UNKNOWN", "green_left"]
+EXTRA_FRAME_IDS = ["cam_back_left", "cam_back_right", "base_link", "lidar_top", "lidar_concat", "cam_traffic_light", "map"]
+BAD_CHANNELS = ["LIDAR_LEFT", "CAM_SIDE", "RADAR_TOP", "camera0", ""]
+CONTRACT_FAMILIES = ["multi-keyframe", "dup-token", "dup-instance", "lidar-offset", "bad-channel", "stale-uuid", "all-fp"]
+DUP_TABLES = ["categories", "attributes", "visibility", "instances", "sensors", "calibrated_sensors", "ego_poses"]
+GRID_STEPS = [125_000, 250_000, 500_000, 500_000, 750_000, 1_000_000, 1_500_000, 1_500_000, 3_000_000, 3_125_000, 3_156_250]
 
 IN_TABLE = [
     "car", "vehicle.car", "CAR", "Vehicle.Car", "bus", "vehicle.bus", "Vehicle.Bus (Bendy & Rigid)", "truck", "vehicle.truck",
@@ -155,7 +222,8 @@ def relink(case):
         a["next"] = ""
     by_inst = {}
     for a in case["annotations"]:
-        by_inst.setdefault(a["instance_token"], []).append(a)
+        if not a.get("no_link"):
+            by_inst.setdefault(a["instance_token"], []).append(a)
     for lst in by_inst.values():
         lst.sort(key=lambda a: order[a["sample_token"]])
         for x, y in zip(lst, lst[1:]):
@@ -164,15 +232,19 @@ def relink(case):
     return case
 
 
-def gen_dataset(rng, max_samples=6, lidar_mode=None, n_samples=None):
+def gen_dataset(rng, max_samples=6, lidar_mode=None, n_samples=None, family=None, dup_table=None):
     ns = n_samples if n_samples is not None else rng.randint(1, max_samples)
-    t = 1_600_000_000_000_000 + rng.randint(0, 10**9)
     samples = []
     steps = [50_000, 100_000, 100_000, 500_000, 500_000, 1_000_000, 1_500_000, 2_650_000, 3_000_000, 3_150_000, 3_150_001, 4_000_000]
     mode = rng.random()
+    grid = rng.random() < 0.4   # float seconds exact: timestamps are multiples of 1/64 s
+    t = 1_600_000_000_000_000 + (rng.randint(0, 10**5) * 15_625 if grid else rng.randint(0, 10**9))
     for i in range(ns):
         samples.append({"token": f"s{i}", "timestamp": t})
-        t += rng.choice(steps[:6]) if mode < 0.6 else rng.choice(steps)
+        if grid:
+            t += rng.choice(GRID_STEPS[:6]) if mode < 0.5 else rng.choice(GRID_STEPS)
+        else:
+            t += rng.choice(steps[:6]) if mode < 0.6 else rng.choice(steps)
     # sensors: the lidar(s) first or last, others around
     lidar_mode = lidar_mode or rng.choice(["top", "top", "concat", "concat", "both", "both_rev"])
     chans = {"top": ["LIDAR_TOP"], "concat": ["LIDAR_CONCAT"], "both": ["LIDAR_TOP", "LIDAR_CONCAT"],
@@ -204,7 +276,7 @@ def gen_dataset(rng, max_samples=6, lidar_mode=None, n_samples=None):
             def add(key, is_key):
                 tok = f"e{len(ego)}"
                 pos = [core.q(Fraction(b + rng.randint(-8, 8), 8)) for b in base] if key != "main" else [core.q(Fraction(b, 8)) for b in base]
-                ego.append({"token": tok, "translation": pos, "rotation": _rand_rot(rng, 0.35)})
+                ego.append({"token": tok, "translation": pos, "rotation": _rand_rot(rng, 0.5 if key == "main" else 0.35)})
                 sdata.append({"token": f"sd{len(sdata)}", "sample_token": s["token"], "ego_pose_token": tok,
                               "calibrated_sensor_token": f"cs{k}", "is_key_frame": is_key,
                               "timestamp": s["timestamp"] + (0 if is_key else rng.randint(1, 40_000))})
@@ -237,7 +309,8 @@ def gen_dataset(rng, max_samples=6, lidar_mode=None, n_samples=None):
     ni = rng.choice([0, 1, 2, 3, 3, 4, 5, 6])
     instances, anns = [], []
     for j in range(ni):
-        instances.append({"token": f"i{j}", "category_token": rng.choice(categories)["token"]})
+        instances.append({"token": f"i{j}", "category_token": rng.choice(categories)["token"],
+                          "instance_name": rng.choice(["", f"scene::cat:{j}", f"{j}"])})
         pm = rng.random()
         if pm < 0.35:
             present = [True] * ns
@@ -268,8 +341,152 @@ def gen_dataset(rng, max_samples=6, lidar_mode=None, n_samples=None):
         rng.shuffle(instances)
     case = {"kind": "dataset", "samples": samples, "sensors": sensors, "calibrated_sensors": calibs, "ego_poses": ego,
             "sample_data": sdata, "categories": categories, "attributes": attrs, "visibility": vis,
-            "instances": instances, "annotations": anns, "configs": copy.deepcopy(ALL_CONFIGS)}
-    return relink(case)
+            "instances": instances, "annotations": anns, "object_anns": [],
+            "configs": copy.deepcopy(ALL_CONFIGS) + rng.sample(FP_CONFIGS, 2), "configs2d": []}
+    relink(case)
+    tl = [c for c in calibs if sensors[int(c["sensor_token"][3:])]["channel"].startswith("CAM_TRAFFIC_LIGHT")]
+    if len(tl) == 2 and rng.random() < 0.25:  # known finding C16-N1: the same rotation with opposite quaternion signs
+        tl[1]["rotation"] = [core.q(-Fraction(v)) for v in tl[0]["rotation"]]
+    add_2d(rng, case, tlr=rng.random() < 0.4)
+    if family:
+        apply_family(rng, case, family, dup_table)
+    return case
+
+
+def _channels(case):
+    sen = {s["token"]: s for s in case["sensors"]}
+    cs = {c["token"]: c for c in case["calibrated_sensors"]}
+    return {x["token"]: sen[cs[x["calibrated_sensor_token"]]["sensor_token"]]["channel"] for x in case["sample_data"]}
+
+
+def _rand_bbox(rng):
+    r = rng.random()
+    den = 1 if r < 0.35 else rng.choice([2, 4, 10])
+    x0, y0 = rng.randint(-6 * den, 1900 * den), rng.randint(-6 * den, 1200 * den)
+    w, h = rng.randint(0, 400 * den), rng.randint(0, 400 * den)
+    if rng.random() < 0.08:
+        w, h = -w, -h  # inverted box: negative width/height are passed through
+    return [core.q(Fraction(v, den)) for v in (x0, y0, x0 + w, y0 + h)]
+
+
+def add_2d(rng, case, tlr=False, n_configs=4):
+    """2-D annotations (object_ann) on the sample_data records, 2-D instances, and the 2-D configurations to load"""
+    chan = _channels(case)
+    cams = [x for x in case["sample_data"] if chan[x["token"]].startswith("CAM")]
+    cats = case["categories"]
+    for n in rng.sample(TLR_CATS, rng.randint(3, 7) if tlr else rng.randint(0, 2)):
+        cats.append({"token": f"c{len(cats)}", "name": n})
+    tl_cats = [c for c in cats if c["name"] in TLR_CATS] or cats
+    rids = rng.sample(["101", "102", "7", "", "lane 5"], 3)
+    nj = rng.randint(1, 6)
+    for j in range(nj):
+        rid = rng.choice(rids)
+        name = rng.choice([f"scene::traffic_light:{rid}", rid, f"a:{rid}", f"x::y::{rid}", f"{rid}:" if rng.random() < 0.2 else f":{rid}"])
+        case["instances"].append({"token": f"j{j}", "category_token": rng.choice(tl_cats if tlr else cats)["token"], "instance_name": name})
+    inst = case["instances"]
+    n_oa = (rng.choice([0, 1, 2, 3, 5, 8]) if cams else 0) if case["samples"] else 0
+    oanns = []
+    hot = {s_["token"] for s_ in rng.sample(case["samples"], min(len(case["samples"]), 2))}
+    hot_cams = [x for x in cams if x["is_key_frame"] and x["sample_token"] in hot]
+    if tlr and hot_cams:
+        n_oa = rng.choice([2, 3, 5, 8])
+    for k in range(n_oa):
+        if tlr and hot_cams and rng.random() < 0.8:  # several lights of few regulatory elements in the same frames
+            sd = rng.choice(hot_cams)
+        else:
+            sd = rng.choice(cams) if rng.random() < 0.88 else rng.choice(case["sample_data"])
+        i = rng.choice(inst[-nj:]) if (tlr or rng.random() < 0.5) else rng.choice(inst)
+        ct = i["category_token"] if rng.random() < 0.7 else rng.choice(tl_cats if tlr else cats)["token"]
+        oanns.append({"token": f"o{k}", "sample_data_token": sd["token"], "instance_token": i["token"], "category_token": ct,
+                      "attribute_tokens": [x["token"] for x in rng.sample(case["attributes"], rng.randint(0, min(2, len(case["attributes"]))))],
+                      "bbox": _rand_bbox(rng)})
+    rng.shuffle(oanns)
+    case["object_anns"] = oanns
+    present = sorted({chan[x["token"]].lower() for x in cams})
+    pool = present + present + EXTRA_FRAME_IDS
+    cfgs = []
+    for _ in range(n_configs):
+        k = rng.choice([0, 1, 1, 2, 2, 3, 4])
+        frames = [rng.choice(pool) for _ in range(k)] if rng.random() < 0.3 else rng.sample(pool, min(k, len(pool)))
+        if tlr and rng.random() < 0.6:
+            cfg = [rng.choice(["classification2d", "classification2d", "detection2d"]), "traffic_light", rng.random() < 0.5, frames]
+        else:
+            cfg = [rng.choice(TASKS_2D), rng.choice(FAMILIES), rng.random() < 0.5, frames]
+        cfgs.append(cfg)
+    if tlr and present:
+        cfgs[0] = ["classification2d", "traffic_light", False, list(present)]
+    case["configs2d"] = cfgs
+    return case
+
+
+def apply_family(rng, case, family, dup_table=None):
+    """one deviation from the well-formed shape; the oracle does not judge these cases (case['contract'])"""
+    case["contract"] = family
+    chan = _channels(case)
+    if family == "multi-keyframe":
+        lid = [x for x in case["sample_data"] if x["is_key_frame"] and chan[x["token"]].startswith("LIDAR")]
+        for x in rng.sample(lid, min(len(lid), rng.randint(1, 3))):
+            tok = f"e{len(case['ego_poses'])}x"
+            base = next(e for e in case["ego_poses"] if e["token"] == x["ego_pose_token"])
+            case["ego_poses"].append({"token": tok, "translation": [core.q(Fraction(v) + rng.randint(-3, 3)) for v in base["translation"]],
+                                      "rotation": _rand_rot(rng, 0.5)})
+            dup = dict(x, token=x["token"] + "k", ego_pose_token=tok)
+            pos = rng.choice([0, case["sample_data"].index(x), case["sample_data"].index(x) + 1, len(case["sample_data"])])
+            case["sample_data"].insert(pos, dup)
+    elif family == "dup-token":
+        tbl = dup_table if dup_table and case[dup_table] else rng.choice([t for t in DUP_TABLES if case[t]])
+        rec = copy.deepcopy(rng.choice(case[tbl]))
+        if tbl in ("categories", "attributes"):
+            rec["name"] = rng.choice(IN_TABLE + OUT_TABLE + ATTRS)
+        elif tbl == "visibility":
+            rec["level"] = rng.choice(LEVELS)
+        elif tbl == "instances":
+            rec["category_token"] = rng.choice(case["categories"])["token"]
+            rec["instance_name"] = "dup::x:999"
+        elif tbl == "sensors":
+            rec["channel"] = rng.choice(["CAM_BACK", "LIDAR_CONCAT", "LIDAR_TOP", "RADAR_BACK_RIGHT"])
+        elif tbl == "calibrated_sensors":
+            rec["translation"] = _rand_vec(rng, -3, 3, 16)
+            rec["rotation"] = _rand_rot(rng, 0.7)
+        else:
+            rec["translation"] = [core.q(Fraction(v) + rng.randint(-5, 5)) for v in rec["translation"]]
+            rec["rotation"] = _rand_rot(rng, 0.5)
+        case[tbl].insert(rng.randint(0, len(case[tbl])), rec)
+        case["dup_table"] = tbl
+    elif family == "dup-instance":
+        A = case["annotations"]
+        linked = [a for a in A if a["prev"]] or A
+        for a in rng.sample(linked, min(len(linked), rng.randint(1, 2))):
+            b = copy.deepcopy(a)
+            b.update(token=a["token"] + "d", no_link=True, translation=[core.q(Fraction(v) + 1) for v in a["translation"]],
+                     num_lidar_pts=a["num_lidar_pts"] + 1)
+            A.insert(rng.randint(0, len(A)), b)
+        relink(case)
+        case["configs"] = [c for c in case["configs"] if c[0] == "tracking"] + [["detection", "map", False]]
+    elif family == "lidar-offset":
+        picked = {x["calibrated_sensor_token"] for x in case["sample_data"] if chan[x["token"]].startswith("LIDAR")}
+        for c in case["calibrated_sensors"]:
+            if c["token"] in picked:
+                c["translation"], c["rotation"] = _rand_vec(rng, -3, 3, 16), _rand_rot(rng, 0.7)
+    elif family == "bad-channel":
+        k = len(case["sensors"])
+        case["sensors"].insert(rng.randint(0, k), {"token": f"sen{k}b", "channel": rng.choice(BAD_CHANNELS), "modality": "lidar"})
+        case["calibrated_sensors"].insert(rng.randint(0, k), {"token": f"cs{k}b", "sensor_token": f"sen{k}b",
+                                                              "translation": list(ZERO3), "rotation": list(ID_ROT)})
+        case["configs"] = rng.sample(case["configs"], 4)
+    elif family == "stale-uuid":
+        for o in rng.sample(case["object_anns"], min(len(case["object_anns"]), rng.randint(1, 2))):
+            o["instance_token"] = "dangling"
+        cams = sorted({chan[x["token"]].lower() for x in case["sample_data"] if chan[x["token"]].startswith("CAM")})
+        case["configs2d"] = [["detection2d", "traffic_light", False, cams], ["classification2d", "traffic_light", False, cams],
+                             ["tracking2d", "autoware", False, cams]]
+        case["configs"] = [["detection", "map", False]]
+    elif family == "all-fp":
+        for c in case["categories"]:
+            c["name"] = rng.choice(["false_positive", "FALSE_POSITIVE", "False_Positive"])
+        case["configs"] = copy.deepcopy(FP_CONFIGS) + [["detection", "base_link", True]]
+        case["configs2d"] = [[t, f, False, c[3]] for t, f, c in zip(["fp_validation2d", "fp_validation2d"], FAMILIES, case["configs2d"])]
+    return case
 
 
 def _fixed_case():
@@ -290,9 +507,23 @@ def _fixed_case():
         "attributes": [{"token": "at0", "name": "vehicle.moving"}, {"token": "at1", "name": "pedestrian.standing"}],
         "visibility": [{"token": "none", "level": "v80-100"}, {"token": "full", "level": "v0-40"}, {"token": "3", "level": "most"},
                        {"token": "4", "level": "v10-20"}],
-        "instances": [{"token": "i0", "category_token": "c0"}, {"token": "i1", "category_token": "c1"}],
+        "instances": [{"token": "i0", "category_token": "c0", "instance_name": "scene::bus:1"},
+                      {"token": "i1", "category_token": "c1", "instance_name": ""}],
         "annotations": [],
-        "configs": copy.deepcopy(ALL_CONFIGS),
+        "object_anns": [
+            {"token": "o0", "sample_data_token": "sd02", "instance_token": "i0", "category_token": "c0", "attribute_tokens": ["at0"],
+             "bbox": ["21/2", "20", "1109/10", "220"]},
+            {"token": "o1", "sample_data_token": "sd12", "instance_token": "i1", "category_token": "c1", "attribute_tokens": [],
+             "bbox": ["-7/2", "-1/2", "30", "40"]},
+            {"token": "o2", "sample_data_token": "sd01", "instance_token": "i1", "category_token": "c0", "attribute_tokens": ["at1", "at0"],
+             "bbox": ["0", "0", "5", "5"]},
+            {"token": "o3", "sample_data_token": "sd02", "instance_token": "i1", "category_token": "c1", "attribute_tokens": [],
+             "bbox": ["100", "90", "80", "70"]},
+        ],
+        "configs": copy.deepcopy(ALL_CONFIGS) + copy.deepcopy(FP_CONFIGS[:2]),
+        "configs2d": [["detection2d", "autoware", False, ["cam_front"]], ["tracking2d", "autoware", True, ["cam_back", "cam_front", "lidar_top"]],
+                      ["classification2d", "autoware", False, ["cam_front"]], ["fp_validation2d", "traffic_light", False, ["cam_front"]],
+                      ["detection2d", "traffic_light", False, []], ["classification2d", "traffic_light", False, ["cam_back"]]],
     }
     egos = [(["100", "-50", "1/2"], r(3, 0, 0, 4, 5)), (["105", "-49", "1/2"], r(1, 2, 2, 4, 5)), (["111", "-47", "3/4"], r(-2, 1, 4, 2, 5))]
     for i, (s, (p, q_)) in enumerate(zip(case["samples"], egos)):
@@ -314,8 +545,84 @@ def _fixed_case():
     return relink(case)
 
 
+def _tlr_case(labels=("green", "UNKNOWN", "red_left", "red_left"), third=None):
+    """traffic lights seen by two cameras: instances j0/j1 share regulatory element 123, j2/j3 share 77"""
+    c = _fixed_case()
+    c["sensors"].append({"token": "senN", "channel": "CAM_TRAFFIC_LIGHT_NEAR", "modality": "camera"})
+    c["calibrated_sensors"].append({"token": "csN", "sensor_token": "senN", "translation": ["1", "0", "2"], "rotation": list(ID_ROT)})
+    for i, s_ in enumerate(c["samples"]):
+        c["ego_poses"].append({"token": f"eN{i}", "translation": [str(200 + i), "-10", "1"], "rotation": ["3/5", "0", "0", "4/5"]})
+        c["sample_data"].append({"token": f"sdN{i}", "sample_token": s_["token"], "ego_pose_token": f"eN{i}", "calibrated_sensor_token": "csN",
+                                 "is_key_frame": True, "timestamp": s_["timestamp"]})
+    c["sample_data"].append({"token": "sdNs", "sample_token": "s0", "ego_pose_token": "eN0", "calibrated_sensor_token": "csN",
+                             "is_key_frame": False, "timestamp": c["samples"][0]["timestamp"] + 5})
+    names = list(labels) + ([third] if third else [])
+    c["categories"] += [{"token": f"t{k}", "name": n} for k, n in enumerate(names)]
+    c["instances"] += [{"token": "j0", "category_token": "t0", "instance_name": "scene::traffic_light:123"},
+                       {"token": "j1", "category_token": "t1", "instance_name": "x::traffic_light:123"},
+                       {"token": "j2", "category_token": "t2", "instance_name": "77"},
+                       {"token": "j3", "category_token": "t3", "instance_name": "a:77"}]
+    c["object_anns"] = [
+        {"token": "o0", "sample_data_token": "sd02", "instance_token": "j0", "category_token": "t0", "attribute_tokens": ["at0"], "bbox": ["21/2", "20", "1109/10", "-7/2"]},
+        {"token": "o1", "sample_data_token": "sdN0", "instance_token": "j1", "category_token": "t1", "attribute_tokens": [], "bbox": ["0", "0", "5", "5"]},
+        {"token": "o2", "sample_data_token": "sdNs", "instance_token": "j2", "category_token": "t2", "attribute_tokens": [], "bbox": ["0", "0", "9", "9"]},
+        {"token": "o3", "sample_data_token": "sdN0", "instance_token": "j2", "category_token": "t2", "attribute_tokens": [], "bbox": ["1", "2", "3", "4"]},
+        {"token": "o4", "sample_data_token": "sd02", "instance_token": "j3", "category_token": "t3", "attribute_tokens": [], "bbox": ["1", "1", "2", "2"]},
+    ]
+    if third:
+        c["instances"].append({"token": "j4", "category_token": f"t{len(names) - 1}", "instance_name": ":123"})
+        c["object_anns"].append({"token": "o5", "sample_data_token": "sdN0", "instance_token": "j4", "category_token": f"t{len(names) - 1}",
+                                 "attribute_tokens": [], "bbox": ["7", "7", "8", "8"]})
+    both = ["cam_front", "cam_traffic_light_near"]
+    c["configs"] = [["detection", "base_link", False]]
+    c["configs2d"] = [["classification2d", "traffic_light", False, both], ["detection2d", "traffic_light", False, both],
+                      ["classification2d", "traffic_light", True, ["cam_traffic_light_near", "cam_back"]],
+                      ["tracking2d", "traffic_light", False, list(reversed(both))], ["classification2d", "autoware", False, both],
+                      ["fp_validation2d", "traffic_light", False, both]]
+    return c
+
+
+def _n1_case():
+    """known finding C16-N1: two traffic-light cameras whose calibrated rotations are q and -q (the same rotation)"""
+    c = _tlr_case()
+    c["sensors"].append({"token": "senX", "channel": "CAM_TRAFFIC_LIGHT_FAR", "modality": "camera"})
+    c["calibrated_sensors"][-1]["rotation"] = ["4/5", "0", "0", "3/5"]
+    c["calibrated_sensors"].append({"token": "csX", "sensor_token": "senX", "translation": ["1", "0", "3"], "rotation": ["-4/5", "0", "0", "-3/5"]})
+    c["configs"] = [["detection", "base_link", False], ["tracking", "map", True]]
+    c["configs2d"] = [["detection2d", "autoware", False, ["cam_front"]], ["classification2d", "traffic_light", False, ["cam_front"]],
+                      ["detection2d", "autoware", False, ["cam_back"]]]
+    return c
+
+
 def corpus():
-    cs = [_fixed_case()]
+    cs = [_fixed_case(), _n1_case(), _tlr_case(), _tlr_case(("red", "green", "unknown", "UNKNOWN")), _tlr_case(third="yellow"),
+          _tlr_case(("crosswalk_red", "red", "blue", "foo"), third="RED")]
+    cs.append(_tlr_case(("unknown", "green", "UNKNOWN", "red_left")))
+    import random as _r
+    for k, fam in enumerate(CONTRACT_FAMILIES):
+        cs.append(gen_dataset(_r.Random(1000 + k), n_samples=3, family=fam))
+    for k, tbl in enumerate(DUP_TABLES):
+        cs.append(gen_dataset(_r.Random(2000 + k), n_samples=2, family="dup-token", dup_table=tbl))
+    # velocity bounds: gaps of exactly 1.5 s (one-sided bound) and 3 s (centred bound), on the exact 1/64 s grid and off it
+    for base in (1_600_000_000_000_000, 1_600_000_000_123_457):
+        c = gen_dataset(_r.Random(base % 1000), n_samples=7)
+        gaps = [1_500_000, 1_500_000, 3_000_000, 1_500_001, 1_499_999, 3_000_001]
+        t = base
+        for s_, g in zip(c["samples"], [0] + gaps):
+            t += g
+            s_["timestamp"] = t
+        for x in c["sample_data"]:
+            x["timestamp"] = next(s_["timestamp"] for s_ in c["samples"] if s_["token"] == x["sample_token"])
+        for j in range(2):  # two instances present throughout / in every other sample
+            c["instances"].append({"token": f"v{j}", "category_token": c["categories"][0]["token"], "instance_name": ""})
+            for i, s_ in enumerate(c["samples"]):
+                if j == 1 and i % 2:
+                    continue
+                c["annotations"].append({"token": f"av{j}{i}", "sample_token": s_["token"], "instance_token": f"v{j}",
+                                         "visibility_token": c["visibility"][0]["token"] if c["visibility"] else "", "attribute_tokens": [],
+                                         "translation": [str(700 + 3 * i + j), str(-20 + i * i), "1/2"], "size": ["2", "4", "3/2"],
+                                         "rotation": ["3/5", "0", "0", "4/5"], "num_lidar_pts": 5, "prev": "", "next": ""})
+        cs.append(relink(c))
     # F13 (fixed): visibility must be the Visibility member (not a string) — one annotation per level
     c = _fixed_case()
     c["visibility"] = [{"token": f"t{k}", "level": l} for k, l in enumerate(LEVELS)]
@@ -363,6 +670,8 @@ def generate(rng, tier):
             c["configs"] = rng.sample(ALL_CONFIGS, 3)
         elif r < 0.12:
             c = gen_dataset(rng, max_samples=8, n_samples=rng.randint(7, 8))
+        elif r < 0.30:
+            c = gen_dataset(rng, family=CONTRACT_FAMILIES[k % len(CONTRACT_FAMILIES)])
         else:
             c = gen_dataset(rng)
         cases.append(c)
@@ -387,7 +696,6 @@ def _write_dataset(case, root):
     os.makedirs(os.path.join(root, "maps"))
     open(os.path.join(root, "maps", "m.png"), "wb").close()
     S = case["samples"]
-    inst_cat = {i["token"]: i["category_token"] for i in case["instances"]}
     chan_of_cs = {}
     sen = {s["token"]: s for s in case["sensors"]}
     for c in case["calibrated_sensors"]:
@@ -425,9 +733,20 @@ def _write_dataset(case, root):
         mine = [a for a in case["annotations"] if a["instance_token"] == i["token"]]
         first = [a for a in mine if a["prev"] == ""]
         last = [a for a in mine if a["next"] == ""]
-        insts.append({"token": i["token"], "category_token": inst_cat[i["token"]], "nbr_annotations": len(mine),
+        insts.append({"token": i["token"], "category_token": i["category_token"], "instance_name": i.get("instance_name", ""),
+                      "nbr_annotations": len(mine),
                       "first_annotation_token": first[0]["token"] if first else "", "last_annotation_token": last[0]["token"] if last else ""})
     tables["instance"] = insts
+
+    def num(x):
+        f = Fraction(x)
+        return int(f) if f.denominator == 1 and f.numerator % 2 == 0 else float(f)  # even integers are written as JSON ints
+
+    tables["object_ann"] = [{"token": o["token"], "sample_data_token": o["sample_data_token"], "instance_token": o["instance_token"],
+                             "category_token": o["category_token"], "attribute_tokens": list(o["attribute_tokens"]),
+                             "bbox": [num(v) for v in o["bbox"]], "mask": None} for o in case.get("object_anns", [])]
+    tables["surface_ann"] = [{"token": "sf0", "sample_data_token": case["sample_data"][0]["token"] if case["sample_data"] else "",
+                              "category_token": case["categories"][0]["token"] if case["categories"] else "", "mask": None}]
     for name, rows in tables.items():
         with open(os.path.join(d, name + ".json"), "w") as fh:
             json.dump(rows, fh)
@@ -439,6 +758,47 @@ def _rotm(qt):
     import numpy as np
 
     return [[float(x) for x in row] for row in np.asarray(qt.rotation_matrix)]
+
+
+def _vel(v):
+    """velocity as the loader exposes it: None, or three floats; the devkit's all-nan vector is canonicalised to None"""
+    import math
+
+    if v is None:
+        return None
+    out = [float(x) for x in v]
+    if all(math.isnan(x) for x in out):
+        return None
+    return out
+
+
+def _canon_frames_2d(frames, family):
+    from perception_eval.common.label import AutowareLabel, TrafficLightLabel
+    from perception_eval.common.schema import FrameID
+
+    want = TrafficLightLabel if family == "traffic_light" else AutowareLabel
+    out = []
+    for f in frames:
+        fr = {"t": f.unix_time, "name": f.frame_name, "n_transforms": len(f.transforms)}
+        m = f.transforms.get((FrameID.BASE_LINK, FrameID.MAP))
+        fr["ego2map"] = None if m is None else {"pos": [float(x) for x in m.position], "rot": _rotm(m.rotation)}
+        objs = []
+        for o in f.objects:
+            lab = o.semantic_label
+            objs.append({
+                "uuid": o.uuid,
+                "label": lab.label.name if isinstance(lab.label, want) else "other:" + repr(lab.label),
+                "name": lab.name,
+                "attrs": list(lab.attributes),
+                "roi": None if o.roi is None else [int(o.roi.offset[0]), int(o.roi.offset[1]), int(o.roi.size[0]), int(o.roi.size[1])],
+                "frame": getattr(o.frame_id, "name", repr(o.frame_id)),
+                "time": o.unix_time,
+                "vis": None if o.visibility is None else repr(o.visibility),
+                "score": float(o.semantic_score),
+            })
+        fr["objects"] = objs
+        out.append(fr)
+    return out
 
 
 def _canon_frames(frames):
@@ -471,6 +831,7 @@ def _canon_frames(frames):
                 "time": o.unix_time,
                 "pos": [float(x) for x in o.state.position],
                 "rot": _rotm(o.state.orientation),
+                "vel": _vel(o.state.velocity),
             }
             # the pose identity of the property, evaluated with the REAL transform objects stored with the frame
             try:
@@ -482,7 +843,8 @@ def _canon_frames(frames):
                 d["tracked"] = None
             else:
                 d["tracked"] = [{"pos": [float(x) for x in s.position], "rot": _rotm(s.orientation),
-                                 "size": [float(x) for x in s.size] if s.shape is not None else None} for s in o.tracked_path]
+                                 "size": [float(x) for x in s.size] if s.shape is not None else None,
+                                 "vel": _vel(s.velocity)} for s in o.tracked_path]
             objs.append(d)
         fr["objects"] = objs
         out.append(fr)
@@ -511,9 +873,19 @@ def run_impl(case):
                 results.append({"frames": _canon_frames(frames)})
             except Exception as e:
                 results.append({"err": type(e).__name__})
+        results2d = []
+        for task, family, merge, frames in case.get("configs2d", []):
+            try:
+                et = EvaluationTask.from_value(task)
+                conv = LabelConverter(et, bool(merge), family)
+                with contextlib.redirect_stderr(io.StringIO()), contextlib.redirect_stdout(io.StringIO()):
+                    loaded = load_all_datasets([root], et, conv, [FrameID.from_value(f) for f in frames])
+                results2d.append({"frames": _canon_frames_2d(loaded, family)})
+            except Exception as e:
+                results2d.append({"err": type(e).__name__})
     finally:
         shutil.rmtree(root, ignore_errors=True)
-    return {"results": results}
+    return {"results": results, "results2d": results2d}
 
 
 # ----------------------------------------------------------------------------- the model
@@ -521,10 +893,14 @@ def run_impl(case):
 def model_requests(case, out):
     keys = ["samples", "sensors", "calibrated_sensors", "ego_poses", "sample_data", "categories", "attributes",
             "visibility", "instances", "annotations"]
-    req = {"op": "load", "configs": [{"task": t, "frame": f, "merge": bool(m)} for t, f, m in case["configs"]]}
-    for k in keys:
-        req[k] = case[k]
-    return [req]
+    tables = {k: case[k] for k in keys}
+    # the float `1e-6 * timestamp` of _get_box_velocity / box_velocity, handed over exactly
+    tables["samples"] = [dict(s_, secs=core.q(1e-6 * s_["timestamp"])) for s_ in case["samples"]]
+    tables["object_anns"] = case.get("object_anns", [])
+    req = dict(tables, op="load", configs=[{"task": t, "frame": f, "merge": bool(m)} for t, f, m in case["configs"]])
+    req2 = dict(tables, op="load2d", configs=[{"task": t, "family": fam, "merge": bool(m), "frames": list(fr)}
+                                              for t, fam, m, fr in case.get("configs2d", [])])
+    return [req, req2]
 
 
 def _qrot(qs):
@@ -554,7 +930,57 @@ def _cmp_pose(tag, pos, rotm, mpos, mrot):
     return None
 
 
+def _cmp_vel(tag, v, m):
+    if (v is None) != (m is None):
+        return f"{tag}: velocity impl {v} != model {m}"
+    if v is not None and not _vclose(v, [Fraction(x) for x in m]):
+        return f"{tag}: velocity impl {v} != model {[float(Fraction(x)) for x in m]}"
+    return None
+
+
+def _compare_2d(case, out, resp):
+    mres = resp.get("results") if resp else None
+    if mres is None or len(mres) != len(out["results2d"]):
+        return f"model answered {resp}"
+    for cfg, a, b in zip(case["configs2d"], out["results2d"], mres):
+        tag = "2d:" + "/".join(map(str, cfg))
+        if "err" in a or "err" in b:
+            if a.get("err") != b.get("err"):
+                return f"{tag}: impl {a.get('err', 'ok')} != model {b.get('err', 'ok')}"
+            continue
+        fa, fb = a["frames"], b["frames"]
+        if len(fa) != len(fb):
+            return f"{tag}: {len(fa)} frames != model {len(fb)}"
+        merged = cfg[1] == "traffic_light" and cfg[0] == "classification2d"
+        for i, (x, y) in enumerate(zip(fa, fb)):
+            t2 = f"{tag} frame {i}"
+            if x["t"] != y["t"] or x["name"] != y["name"]:
+                return f"{t2}: (time, name) impl {(x['t'], x['name'])} != model {(y['t'], y['name'])}"
+            if (x["ego2map"] is None) != (y["ego2map"] is None):
+                return f"{t2}: ego2map impl {x['ego2map']} != model {y['ego2map']}"
+            if x["ego2map"] is not None:
+                d = _cmp_pose(t2 + " ego2map", x["ego2map"]["pos"], x["ego2map"]["rot"], y["ego2map"]["pos"], y["ego2map"]["rot"])
+                if d:
+                    return d
+            xo, yo = x["objects"], y["objects"]
+            if len(xo) != len(yo):
+                return f"{t2}: {len(xo)} objects != model {len(yo)}"
+            if merged:  # python set order: compare as a set keyed by uuid
+                xo, yo = sorted(xo, key=lambda o: o["uuid"]), sorted(yo, key=lambda o: o["uuid"])
+            for j, (o, m) in enumerate(zip(xo, yo)):
+                if o["vis"] is not None or o["score"] != 1.0:
+                    return f"{t2} object {j}: visibility {o['vis']} / score {o['score']}"
+                for k in ("uuid", "label", "name", "attrs", "roi", "frame", "time"):
+                    if o[k] != m[k]:
+                        return f"{t2} object {j}: {k} impl {o[k]!r} != model {m[k]!r}"
+    return None
+
+
 def compare(case, out, resps):
+    if case.get("configs2d"):
+        d = _compare_2d(case, out, resps[1] if len(resps) > 1 else None)
+        if d:
+            return d
     mres = resps[0].get("results")
     if mres is None or len(mres) != len(out["results"]):
         return f"model answered {resps[0]}"
@@ -585,7 +1011,7 @@ def compare(case, out, resps):
                         return f"{t3}: {k} impl {o[k]!r} != model {m[k]!r}"
                 if not _vclose(o["size"], [Fraction(s) for s in m["size"]]):
                     return f"{t3}: size impl {o['size']} != model {m['size']}"
-                d = _cmp_pose(t3, o["pos"], o["rot"], m["pos"], m["rot"])
+                d = _cmp_pose(t3, o["pos"], o["rot"], m["pos"], m["rot"]) or _cmp_vel(t3, o["vel"], m["vel"])
                 if d:
                     return d
                 if (o["tracked"] is None) != (m["tracked"] is None):
@@ -594,7 +1020,8 @@ def compare(case, out, resps):
                     if len(o["tracked"]) != len(m["tracked"]):
                         return f"{t3}: history length impl {len(o['tracked'])} != model {len(m['tracked'])}"
                     for h, (p, r) in enumerate(zip(o["tracked"], m["tracked"])):
-                        d = _cmp_pose(f"{t3} history {h}", p["pos"], p["rot"], r["pos"], r["rot"])
+                        d = (_cmp_pose(f"{t3} history {h}", p["pos"], p["rot"], r["pos"], r["rot"])
+                             or _cmp_vel(f"{t3} history {h}", p["vel"], r["vel"]))
                         if d:
                             return d
                         if p["size"] is None or not _vclose(p["size"], [Fraction(s) for s in r["size"]]):
@@ -655,9 +1082,121 @@ def _picked_lidar(case, sample_token):
     return by.get("LIDAR_TOP", by.get("LIDAR_CONCAT"))
 
 
+NOT_JUDGED = {"dup-token", "dup-instance", "lidar-offset", "bad-channel", "stale-uuid"}
+N1_TAG = "[C16-N1]"
+
+
+def _tlr_sum_zero(case):
+    """signature of the known finding C16-N1: the calibrated rotations of the traffic-light cameras (every
+    calibrated_sensor whose channel contains CAM_TRAFFIC_LIGHT) sum to the zero quaternion, e.g. q and -q"""
+    sen = {s["token"]: s for s in case["sensors"]}
+    rots = [[Fraction(v) for v in c["rotation"]] for c in case["calibrated_sensors"]
+            if c["sensor_token"] in sen and "CAM_TRAFFIC_LIGHT" in sen[c["sensor_token"]]["channel"].upper()]
+    return bool(rots) and all(sum(r[k] for r in rots) == 0 for k in range(4))
+
+
+def known_finding(case, out, failure):
+    """C16-N1: _get_transforms averages the traffic-light camera rotations as sum(q)/sum(q).norm and raises
+    ZeroDivisionError when they cancel (two cameras calibrated q and -q = the same rotation). Signature: the failure is
+    exactly that exception on a dataset whose traffic-light rotations sum to zero; every other oracle clause holds."""
+    if isinstance(failure, str) and failure.startswith(N1_TAG) and _tlr_sum_zero(case):
+        return "C16-N1"
+    return None
+
+
+def _pairs_2d(task, family, merge):
+    from perception_eval.common.evaluation_task import EvaluationTask
+    from perception_eval.common.label import _get_autoware_pairs, _get_traffic_light_paris
+
+    if family == "traffic_light":
+        return [(lab.name, name) for lab, name in _get_traffic_light_paris(EvaluationTask.from_value(task))]
+    return [(lab.name, name) for lab, name in _get_autoware_pairs(merge)]
+
+
+def _expected_2d(case, cfg, s, chan=None):
+    """the 2-D annotations of sample `s` on the requested cameras, in object_ann order, with the camera they belong to"""
+    chan = chan or _channels(case)
+    key = {}
+    for x in case["sample_data"]:
+        if x["sample_token"] == s["token"] and x["is_key_frame"]:
+            key[chan[x["token"]]] = x["token"]
+    found = {}
+    for f in cfg[3]:
+        if f.upper() in key:
+            found[key[f.upper()]] = f.upper()
+    return [(o, found[o["sample_data_token"]]) for o in case["object_anns"] if o["sample_data_token"] in found]
+
+
+def _oracle_2d(case, out):
+    """the statement read on the 2-D annotations of the requested cameras (merged traffic lights excepted)"""
+    S = case["samples"]
+    chan = _channels(case)
+    cat = {c["token"]: c for c in case["categories"]}
+    att = {a["token"]: a for a in case["attributes"]}
+    inst = {}
+    for i in case["instances"]:
+        inst.setdefault(i["token"], i)
+    n1 = None
+    for cfg, res in zip(case["configs2d"], out["results2d"]):
+        task, family, merge, frames = cfg
+        tag = "2d:" + "/".join(map(str, cfg))
+        if not S:
+            if res.get("err") != "DatasetLoadingError":
+                return f"{tag}: a dataset without samples must be rejected with DatasetLoadingError, got {res.get('err', 'frames')}"
+            continue
+        if family == "traffic_light" and task == "classification2d":
+            continue
+        if res.get("err") == "ZeroDivisionError" and _tlr_sum_zero(case):
+            n1 = f"{N1_TAG} {tag}: loading a well-formed dataset raised ZeroDivisionError (traffic-light camera rotations cancel)"
+            continue
+        if "err" in res:
+            return f"{tag}: loading a well-formed dataset raised {res['err']}"
+        fr_all = res["frames"]
+        if len(fr_all) != len(S):
+            return f"{tag}: {len(fr_all)} frames for {len(S)} samples"
+        pairs = _pairs_2d(task, family, merge)
+        for i, (s, fr) in enumerate(zip(S, fr_all)):
+            t2 = f"{tag} frame {i}"
+            if fr["t"] != s["timestamp"]:
+                return f"{t2}: timestamp {fr['t']} != sample's {s['timestamp']}"
+            anns = _expected_2d(case, cfg, s, chan)
+            if len(fr["objects"]) != len(anns):
+                return f"{t2}: {len(fr['objects'])} objects for {len(anns)} 2-D annotations on the requested cameras"
+            for (a, cam), o in zip(anns, fr["objects"]):
+                t3 = f"{t2} annotation {a['token']}"
+                cname = cat[a["category_token"]]["name"]
+                want = next((lab for lab, n in pairs if cname.lower() == n), "UNKNOWN")
+                if o["label"] != want or o["name"] != cname:
+                    return f"{t3}: label {o['label']} / name {o['name']!r} for category {cname!r}, expected {want}"
+                wa = [att[t]["name"] for t in a["attribute_tokens"]]
+                if o["attrs"] != wa:
+                    return f"{t3}: attributes {o['attrs']} != {wa}"
+                wu = inst[a["instance_token"]]["instance_name"].split(":")[-1] if family == "traffic_light" else a["instance_token"]
+                if o["uuid"] != wu:
+                    return f"{t3}: uuid {o['uuid']!r} != {wu!r}"
+                if o["frame"] != cam or o["time"] != s["timestamp"]:
+                    return f"{t3}: stamped {(o['frame'], o['time'])}, expected {(cam, s['timestamp'])}"
+                if task in ("detection2d", "tracking2d"):
+                    b = [int(float(Fraction(v))) for v in a["bbox"]]
+                    wr = [b[0], b[1], b[2] - b[0], b[3] - b[1]]
+                else:
+                    wr = None
+                if o["roi"] != wr:
+                    return f"{t3}: roi {o['roi']} != {wr} (bbox {a['bbox']})"
+    return n1
+
+
 def oracle(case, out):
     import numpy as np
 
+    if case.get("contract") in NOT_JUDGED:
+        return None
+    n1 = None
+    if case.get("configs2d"):
+        d = _oracle_2d(case, out)
+        if d and not d.startswith(N1_TAG):
+            return d
+        n1 = d
     S = case["samples"]
     inst = {i["token"]: i for i in case["instances"]}
     cat = {c["token"]: c for c in case["categories"]}
@@ -669,6 +1208,8 @@ def oracle(case, out):
     for cfg, res in zip(case["configs"], out["results"]):
         task, frame, merge = cfg
         tag = "/".join(map(str, cfg))
+        if task == "fp_validation":
+            continue  # outside the property's quantifier; compared with the model only
         if not S:
             if res.get("err") != "DatasetLoadingError":
                 return f"{tag}: a dataset without samples must be rejected with DatasetLoadingError, got {res.get('err', 'frames')}"
@@ -677,6 +1218,10 @@ def oracle(case, out):
             # outside the property's domain (no lidar key frame): the loader documents ValueError
             if res.get("err") != "ValueError":
                 return f"{tag}: a sample without LIDAR_TOP/LIDAR_CONCAT must raise ValueError, got {res.get('err', 'frames')}"
+            continue
+        if res.get("err") == "ZeroDivisionError" and _tlr_sum_zero(case):
+            # known finding: reported after every other clause has been checked
+            n1 = f"{N1_TAG} {tag}: loading a well-formed dataset raised ZeroDivisionError (traffic-light camera rotations cancel)"
             continue
         if "err" in res:
             return f"{tag}: loading a well-formed dataset raised {res['err']}"
@@ -758,7 +1303,7 @@ def oracle(case, out):
                             return f"{t3}: history state {h} is not the pose/size of the preceding annotation {b['token']}"
                 elif o["tracked"] is not None:
                     return f"{t3}: {task} task exposes a history"
-    return None
+    return n1
 
 
 # ----------------------------------------------------------------------------- histogram, shrinking, search
@@ -820,6 +1365,99 @@ def branches(case, out):
         br.append("rot:3d-object")
     if any(any(Fraction(x) != 0 for x in e["rotation"][1:3]) for e in case["ego_poses"]):
         br.append("rot:3d-ego")
+    # the ego pose the loader actually uses (picked lidar key frame) has roll/pitch, in a base_link config that loaded
+    egos = {e["token"]: e for e in case["ego_poses"]}
+    try:
+        picked = [_picked_lidar(case, s_["token"]) for s_ in S]
+    except KeyError:
+        picked = []
+    if any(sd is not None and sd["ego_pose_token"] in egos and
+           any(Fraction(x) != 0 for x in egos[sd["ego_pose_token"]]["rotation"][1:3]) for sd in picked):
+        if any(cfg[1] == "base_link" and "frames" in r and any(f["objects"] for f in r["frames"])
+               for cfg, r in zip(case["configs"], out["results"])):
+            br.append("rot:3d-ego-picked-lidar/base_link-objects")
+    if case.get("contract"):
+        br.append("contract:" + case["contract"] + (":" + case["dup_table"] if case.get("dup_table") else ""))
+    # devkit fact ANNS: some sample lists its annotations in another order than the instances
+    io = {i["token"]: k for k, i in enumerate(case["instances"])}
+    for s_ in S:
+        ks = [io.get(a["instance_token"], -1) for a in A if a["sample_token"] == s_["token"]]
+        if len(ks) >= 2 and ks != sorted(ks):
+            br.append("contract:anns-order")
+            break
+    # velocities
+    for r, cfg in zip(out["results"], case["configs"]):
+        if "frames" not in r:
+            continue
+        if cfg[0] == "fp_validation":
+            br.append("fp_validation:loaded")
+        for f in r["frames"]:
+            for o in f["objects"]:
+                br.append("vel:some" if o["vel"] is not None else "vel:none")
+                for h in (o["tracked"] or []):
+                    br.append("tvel:some" if h["vel"] is not None else "tvel:nan")
+    for r, cfg in zip(out["results"], case["configs"]):
+        if cfg[0] == "fp_validation" and r.get("err") == "ValueError":
+            br.append("fp_validation:rejected")
+    by_tok = {a["token"]: a for a in A}
+    s_time0 = {s_["token"]: s_["timestamp"] for s_ in S}
+    for a in A:
+        first = by_tok.get(a["prev"], a) if a["prev"] else a
+        last = by_tok.get(a["next"], a) if a["next"] else a
+        if first is last:
+            br.append("vel:no-neighbour")
+            continue
+        dt = s_time0[last["sample_token"]] - s_time0[first["sample_token"]]
+        both = bool(a["prev"]) and bool(a["next"])
+        lim = 3_000_000 if both else 1_500_000
+        br.append(("vel:centred" if both else "vel:one-sided") + (":at-bound" if dt == lim else ":beyond" if dt > lim else ":within"))
+    if S and all(s_["timestamp"] % 15_625 == 0 for s_ in S):
+        br.append("time:grid-exact")
+    # 2-D
+    for cfg, r in zip(case.get("configs2d", []), out.get("results2d", [])):
+        task, fam, merge, frames = cfg
+        br.append(f"2d:{task}/{fam}")
+        br.append(f"2d:frames:{min(len(frames), 3)}")
+        if "err" in r:
+            br.append("2d:err:" + r["err"])
+            continue
+        objs = [o for f in r["frames"] for o in f["objects"]]
+        if not objs:
+            br.append("2d:no-objects")
+        if any(f["ego2map"] is None for f in r["frames"]):
+            br.append("2d:no-transform")
+        if fam == "traffic_light" and task == "classification2d" and objs:
+            br.append("2d:merged")
+        if fam == "traffic_light" and task == "classification2d" and not case.get("contract"):
+            pairs = _pairs_2d(task, fam, merge)
+            cat = {c["token"]: c["name"] for c in case["categories"]}
+            iname = {}
+            for i_ in case["instances"]:
+                iname.setdefault(i_["token"], i_.get("instance_name", ""))
+            for s_ in S:
+                groups = {}
+                for a, _cam in _expected_2d(case, cfg, s_):
+                    lab = next((l for l, n in pairs if cat[a["category_token"]].lower() == n), "UNKNOWN")
+                    groups.setdefault(iname.get(a["instance_token"], "").split(":")[-1], []).append(lab)
+                for labs in groups.values():
+                    if len(labs) < 2:
+                        br.append("2d:merge:single")
+                    elif len(set(labs)) == 1:
+                        br.append("2d:merge:agree")
+                    elif len(set(labs)) > 2:
+                        br.append("2d:merge:three-labels")
+                    elif "UNKNOWN" in labs:
+                        br.append("2d:merge:unknown-first" if labs[0] == "UNKNOWN" else "2d:merge:unknown-later")
+                    else:
+                        br.append("2d:merge:two-known")
+        if any(o["roi"] is not None and (o["roi"][2] < 0 or o["roi"][3] < 0) for o in objs):
+            br.append("2d:roi-negative-size")
+        for o in objs:
+            br.append("2d:label:" + ("UNKNOWN" if o["label"] == "UNKNOWN" else "FP" if o["label"] == "FP" else "known"))
+    if any(Fraction(v) < 0 and Fraction(v).denominator != 1 for o in case.get("object_anns", []) for v in o["bbox"]):
+        br.append("2d:bbox-negative-fraction")
+    if case.get("object_anns"):
+        br.append("2d:object_anns:" + str(min(len(case["object_anns"]), 5)))
     hl = set()
     for r, cfg in zip(out["results"], case["configs"]):
         if cfg[0] == "tracking" and "frames" in r:
@@ -847,16 +1485,31 @@ def _drop_sample(case, k):
     c = copy.deepcopy(case)
     tok = c["samples"][k]["token"]
     del c["samples"][k]
+    gone = {x["token"] for x in c["sample_data"] if x["sample_token"] == tok}
+    c["object_anns"] = [o for o in c.get("object_anns", []) if o["sample_data_token"] not in gone]
     c["sample_data"] = [x for x in c["sample_data"] if x["sample_token"] != tok]
     c["annotations"] = [a for a in c["annotations"] if a["sample_token"] != tok]
     return relink(c)
 
 
 def shrink(case):
-    if len(case["configs"]) > 1:
+    if len(case["configs"]) + len(case.get("configs2d", [])) > 1:
         for cfg in case["configs"]:
             c = copy.deepcopy(case)
-            c["configs"] = [cfg]
+            c["configs"], c["configs2d"] = [cfg], []
+            yield c
+        for cfg in case.get("configs2d", []):
+            c = copy.deepcopy(case)
+            c["configs"], c["configs2d"] = [], [cfg]
+            yield c
+    for k in range(len(case.get("object_anns", []))):
+        c = copy.deepcopy(case)
+        del c["object_anns"][k]
+        yield c
+    for cfg_i, cfg in enumerate(case.get("configs2d", [])):
+        for k in range(len(cfg[3])):
+            c = copy.deepcopy(case)
+            del c["configs2d"][cfg_i][3][k]
             yield c
     for k in reversed(range(len(case["samples"]))):
         if len(case["samples"]) > 1:
@@ -865,6 +1518,7 @@ def shrink(case):
         c = copy.deepcopy(case)
         c["instances"] = [x for x in c["instances"] if x["token"] != i["token"]]
         c["annotations"] = [a for a in c["annotations"] if a["instance_token"] != i["token"]]
+        c["object_anns"] = [o for o in c.get("object_anns", []) if o["instance_token"] != i["token"]]
         yield relink(c)
     for k in range(len(case["annotations"])):
         c = copy.deepcopy(case)
@@ -878,6 +1532,8 @@ def shrink(case):
             c = copy.deepcopy(case)
             c["calibrated_sensors"] = [x for x in c["calibrated_sensors"] if x["token"] != cs["token"]]
             c["sensors"] = [x for x in c["sensors"] if x["token"] != cs["sensor_token"]]
+            gone = {x["token"] for x in c["sample_data"] if x["calibrated_sensor_token"] == cs["token"]}
+            c["object_anns"] = [o for o in c.get("object_anns", []) if o["sample_data_token"] not in gone]
             c["sample_data"] = [x for x in c["sample_data"] if x["calibrated_sensor_token"] != cs["token"]]
             yield c
     if any(not x["is_key_frame"] for x in case["sample_data"]):
@@ -899,4 +1555,4 @@ def shrink(case):
 
 
 def search(rng, st, disagreements):
-    return [gen_dataset(rng) for _ in range(40)]
+    return [gen_dataset(rng) for _ in range(30)] + [gen_dataset(rng, family=f) for f in ("multi-keyframe", "all-fp") for _ in range(5)]
